@@ -95,10 +95,11 @@ CLAIMED = {
         note='The max/min selection and the cycle counter of the whole function are bounded, not proved. The induction schema (base + step => forall) and the generalisation of Skolem constants are applied by the contract (A7).',
         ref='DESIGN.md 7 C11'),
     'C12': dict(
-        text='Zero crossings: unbounded proof of soundness (every reported index is 0, a first-of-run exact zero or the first sample after a strict sign change), range and strict ascent; '
-             'completeness, tol>0 subsequence and the switched-peak clauses (exactly one per excursion at the largest magnitude, no shared strict sign, global |max| included) by bounded symbolic '
+        text='Zero crossings: unbounded proof of soundness (every reported index is 0, a first-of-run exact zero or the first sample after a strict sign change), range, strict ascent and COMPLETENESS '
+             '(every such sample is reported; witness position from the where() position functions, the inverse sort permutation and the front insertion); '
+             'tol>0 subsequence and the switched-peak clauses (exactly one per excursion at the largest magnitude, no shared strict sign, global |max| included) by bounded symbolic '
              'check over all real/int series of length <= 4 (<= 6 thorough).',
-        note='Completeness of the crossing set and all switched-peak clauses are bounded, not proved.',
+        note='The tolerance clauses and all switched-peak clauses are bounded, not proved.',
         ref='DESIGN.md 7 C12'),
     'C13': dict(
         text='Unbounded proofs for the cleaned-data helpers (entries at peaks equal the change since the previous peak / the signed peak magnitude, zero between peaks, input not written); '
